@@ -239,10 +239,13 @@ func (g *G) attr(a string, c *svcCtx) *Y {
 			return y
 		default:
 			y := Seq()
-			for i, p := range c.envFiles {
+			for _, p := range c.envFiles {
 				m := Map().Set("path", Str(f(p)))
-				if i%2 == 1 {
+				switch g.n("envfile-required", 3) {
+				case 0:
 					m.Set("required", Bool(true))
+				case 1:
+					m.Set("required", Bool(false)) // optional for this service; another service may still require it
 				}
 				if g.chance("envfile-fmt", 1, 4) {
 					m.Set("format", Str("raw"))
